@@ -70,7 +70,7 @@ def bump_water(rng, res, target_idx, resseq=900):
 def gen_case(rng, force=None):
     """-> (pdb text, options, features)"""
     feats = {}
-    kind = rng.choice(["bump", "bump", "bump", "plain", "ss", "missing"])
+    kind = rng.choice(["bump", "bump", "bump", "plain", "ss", "missing", "gap"])
     if kind == "ss":
         text, opts, f = c13.gen_case(rng)
         opts = [o for o in opts if o not in ("--nodebump", "--noopt", "--whitespace", "--keep-chain")]
@@ -79,9 +79,16 @@ def gen_case(rng, force=None):
         feats["pos"] = "?"
     else:
         target = force or rng.choice(G.AA3)
-        n = rng.choice([1, 2, 3, 4, 6])
+        n = rng.choice([1, 2, 3, 4, 6]) if kind != "gap" else rng.choice([5, 6, 8])
         _f, res = G.window(rng, n, must_have=target)
         G.set_chain(res, "A", rng.choice([1, 17, 250]))
+        if kind == "gap" and len(res) >= 5:
+            # residues missing in the middle of a chain: same chain, numbering kept, no TER
+            keep_target = [i for i, r in enumerate(res) if r[0].resn == target]
+            a = rng.randint(1, len(res) - 3)
+            b = a + rng.randint(1, min(3, len(res) - 2 - a))
+            cut = [i for i in range(a, b) if i not in keep_target[:1]]
+            res = [r for i, r in enumerate(res) if i not in cut]
         idx = [i for i, r in enumerate(res) if r[0].resn == target]
         ti = rng.choice(idx)
         feats["target"] = target
@@ -103,6 +110,19 @@ def gen_case(rng, force=None):
             w = bump_water(rng, res, ti)
             if w and rng.random() < 0.5:
                 waters.append(w)
+        if rng.random() < 0.25:
+            # the atoms of a residue need not come in the canonical outward order
+            how = rng.choice(["sorted", "shuffled", "reversed"])
+            for k, r in enumerate(res):
+                if how == "sorted":
+                    res[k] = sorted(r, key=lambda a: a.name)
+                elif how == "reversed":
+                    res[k] = list(reversed(r))
+                else:
+                    r2 = list(r)
+                    rng.shuffle(r2)
+                    res[k] = r2
+            feats["kind"] += "+atoms-" + how
         text = G.to_pdb([res], waters)
         opts = ["--ff=" + rng.choice(["AMBER", "CHARMM", "PARSE", "SWANSON", "TYL06", "PEOEPB"])]
     mode = rng.choice(["default", "default", "default", "nodebump", "noopt", "no-motion", "ph"])
